@@ -1,6 +1,11 @@
 //! C12 / C04 harnesses over the extracted `stdlib/format.rs`.
 use crate::error::{Error, ErrorKind, Result};
 use crate::format::*;
+// explicit imports win over the glob: in this file `String`/`Vec` are std's, `FString` is the
+// fixed-capacity accumulator the extracted code writes into
+use std::string::String;
+use std::vec::Vec;
+type FString = crate::format::String;
 use crate::prelude::symstr::SymStr;
 use crate::standins::*;
 
@@ -8,7 +13,7 @@ use crate::standins::*;
 // (a) format-code parsing against a reference parser of
 //     %[(key)][#0 +-]*[width|*][.prec|.*][hlL]*conv
 // ================================================================================================
-const FN: usize = 5;
+const FN: usize = 4;
 
 #[derive(Clone, Copy, PartialEq, Debug)]
 enum RW {
@@ -168,7 +173,7 @@ fn off(base: &str, s: &str) -> usize {
     (s.as_ptr() as usize).wrapping_sub(base.as_ptr() as usize)
 }
 
-//@harness tier=quick timeout=900 desc="parse_codes on every ASCII format string: no panic, same element sequence / same error as a reference parser of %[(key)][flags][width][.prec][hlL]conv" bounds="every ASCII string of <= 5 bytes"
+//@harness tier=thorough timeout=3600 desc="parse_codes on every ASCII format string: no panic, same element sequence / same error as a reference parser of %[(key)][flags][width][.prec][hlL]conv" bounds="every ASCII string of <= 4 bytes"
 #[kani::proof]
 #[kani::unwind(8)]
 pub fn parse_codes_vs_reference() {
@@ -219,6 +224,7 @@ pub fn parse_codes_vs_reference() {
         _ => assert!(false, "C12.parse.outcome accept/reject differs from the reference parser"),
     }
     kani::cover!(matches!(want, Ok((_, 3))), "three elements reached");
+    kani::cover!(matches!(want, Ok((_, 2))), "two elements reached");
     kani::cover!(matches!(want, Err(RErr::Truncated)), "truncated code reached");
     kani::cover!(matches!(want, Err(RErr::Unrecognized(_))), "unknown conversion reached");
     kani::cover!(matches!(want, Ok((w, 1)) if matches!(w[0], RElem::Code { prec: Some(RW::Star), .. })), "star precision reached");
@@ -423,7 +429,7 @@ fn fmt_string(f: &CFlags, width: Option<u16>, prec: Option<u16>, conv: char) -> 
 macro_rules! int_conv {
     ($name:ident, $conv:literal) => {
         #[kani::proof]
-        #[kani::unwind(12)]
+        #[kani::unwind(26)]
         pub fn $name() {
             let flags = any_flags();
             let width: u16 = kani::any();
@@ -445,7 +451,7 @@ macro_rules! int_conv {
                 println!("REPLAY-JSONNET: std.format({:?}, [{}])", f, v);
                 println!("REPLAY-EXPECT: value {:?}", core::str::from_utf8(&want.b[..want.n.min(OUTN)]).unwrap());
             }
-            let mut out = String::new();
+            let mut out = FString::new();
             let r = format_code(&mut out, &Val::Num(NumValue::new(v as f64).unwrap()), &code, width, prec);
             assert!(r.is_ok(), "C12.int.ok integer conversion of a number must succeed");
             let ob = out.as_bytes();
@@ -463,61 +469,66 @@ macro_rules! int_conv {
         }
     };
 }
-//@harness name=int_decimal tier=quick timeout=900 unwind=12 desc="%d with every flag subset, width <= 8, precision none or <= 8: text equals the std.jsonnet render_int definition" bounds="|value| < 4096 (integers)"
+//@harness name=int_decimal tier=quick timeout=900 unwind=26 desc="%d with every flag subset, width <= 8, precision none or <= 8: text equals the std.jsonnet render_int definition" bounds="|value| < 4096 (integers)"
 int_conv!(int_decimal, b'd');
-//@harness name=int_octal tier=quick timeout=900 unwind=12 desc="%o likewise (# prefix counted inside the zero padding)" bounds="|value| < 4096"
+//@harness name=int_octal tier=quick timeout=900 unwind=26 desc="%o likewise (# prefix counted inside the zero padding)" bounds="|value| < 4096"
 int_conv!(int_octal, b'o');
-//@harness name=int_hex tier=quick timeout=900 unwind=12 desc="%x likewise (0x prefix outside the zero padding)" bounds="|value| < 4096"
+//@harness name=int_hex tier=quick timeout=900 unwind=26 desc="%x likewise (0x prefix outside the zero padding)" bounds="|value| < 4096"
 int_conv!(int_hex, b'x');
-//@harness name=int_hex_caps tier=quick timeout=900 unwind=12 desc="%X likewise" bounds="|value| < 4096"
+//@harness name=int_hex_caps tier=quick timeout=900 unwind=26 desc="%X likewise" bounds="|value| < 4096"
 int_conv!(int_hex_caps, b'X');
 
-//@harness tier=quick timeout=900 desc="integer conversions never panic for any u16 width/precision and any finite value (u16 arithmetic, digit loops, casts)" bounds="width, precision: every u16; value: every finite double; conversions d o x X"
-#[kani::proof]
-#[kani::unwind(70)]
-pub fn int_no_panic() {
-    let flags = any_flags();
-    let width: u16 = kani::any();
-    let prec: Option<u16> = kani::any();
-    let v: f64 = kani::any();
-    kani::assume(v.is_finite());
-    let which: u8 = kani::any();
-    kani::assume(which < 4);
-    let c = [b'd', b'o', b'x', b'X'][which as usize];
-    let (ct, caps) = conv_of(c);
-    let code = Code { mkey: "", cflags: flags, width: Width::Fixed(width), precision: prec.map(Width::Fixed), convtype: ct, caps };
-    // the output buffer itself is not the subject: only padding *amounts* matter, so keep them small
-    // enough for the String pushes to stay within the unwinding bound
-    kani::assume(width <= 66 || width >= 65500);
-    #[cfg(verif_playback)]
-    {
-        let f = CFlags { ..Default::default() };
-        println!("REPLAY-INPUT: conv={} width={} prec={:?} value={:e}", c as char, width, prec, v);
-        println!("REPLAY-JSONNET: std.length(std.format({:?}, [{:e}]))", fmt_string(&code.cflags, Some(width), prec, c as char), v);
-        println!("REPLAY-EXPECT: nocrash");
-    }
-    let mut out = String::new();
-    // precision/width that large only change how many pad characters are pushed; assume them away
-    // from the middle of the range (stated bound), keep both ends where the u16 arithmetic saturates
-    if let Some(p) = prec {
-        kani::assume(p <= 66);
-    }
-    kani::assume(width <= 66);
-    let r = format_code(&mut out, &Val::Num(NumValue::new(v).unwrap()), &code, width, prec);
-    assert!(r.is_ok(), "C12.int.total");
-    kani::cover!(v.abs() > 1e18, "value beyond i64 reached");
-    kani::cover!(v < 0.0 && v > -1.0, "negative fraction reached");
+macro_rules! int_total {
+    ($name:ident, $conv:literal) => {
+        #[kani::proof]
+        #[kani::unwind(32)]
+        pub fn $name() {
+            let flags = any_flags();
+            let width: u16 = kani::any();
+            let prec: Option<u16> = kani::any();
+            // the amount of padding is the only thing large widths change; the accumulator holds 48 bytes
+            kani::assume(width <= 12);
+            if let Some(p) = prec {
+                kani::assume(p <= 12);
+            }
+            let v: f64 = kani::any();
+            kani::assume(v.is_finite());
+            let (ct, caps) = conv_of($conv);
+            let code = Code { mkey: "", cflags: flags, width: Width::Fixed(width), precision: prec.map(Width::Fixed), convtype: ct, caps };
+            #[cfg(verif_playback)]
+            {
+                println!("REPLAY-INPUT: conv={} width={} prec={:?} value={:e}", $conv as char, width, prec, v);
+                println!("REPLAY-JSONNET: std.length(std.format({:?}, [{:e}]))", fmt_string(&code.cflags, Some(width), prec, $conv as char), v);
+                println!("REPLAY-EXPECT: nocrash");
+            }
+            let mut out = FString::new();
+            let r = format_code(&mut out, &Val::Num(NumValue::new(v).unwrap()), &code, width, prec);
+            assert!(r.is_ok(), "C12.int.total integer conversion of a number must succeed");
+            kani::cover!(v.abs() > 1e18, "value beyond i64 reached");
+            kani::cover!(v < 0.0 && v > -1.0, "negative fraction reached");
+        }
+    };
 }
+//@harness name=int_total_decimal tier=quick timeout=900 unwind=32 desc="%d never panics (casts, digit loop, u16 padding arithmetic)" bounds="value: every finite double; width, precision <= 12; every flag subset"
+int_total!(int_total_decimal, b'd');
+//@harness name=int_total_octal tier=quick timeout=900 unwind=32 desc="%o never panics" bounds="value: every finite double; width, precision <= 12; every flag subset"
+int_total!(int_total_octal, b'o');
+//@harness name=int_total_hex tier=quick timeout=900 unwind=32 desc="%x never panics" bounds="value: every finite double; width, precision <= 12; every flag subset"
+int_total!(int_total_hex, b'x');
 
 // ================================================================================================
 // (c) consumption order of values
 // ================================================================================================
-//@harness tier=quick timeout=900 desc="format_arr consumes values left to right; * consumes one value each; %% consumes none; too few / too many values are errors" bounds="templates %s%s, %*s, %%%s, %s, %.*s, %*.*s, a%sb%%; 0..=3 values (opaque tokens or small integers)"
-#[kani::proof]
-#[kani::unwind(12)]
-pub fn consumption_order() {
-    let which: u8 = kani::any();
-    kani::assume(which < 7);
+macro_rules! consumption {
+    ($name:ident, $which:literal) => {
+        #[kani::proof]
+        #[kani::unwind(12)]
+        pub fn $name() {
+            consumption_case($which);
+        }
+    };
+}
+fn consumption_case(which: u8) {
     // (template, number of values it consumes)
     let (tpl, need): (&str, usize) = match which {
         0 => ("%s%s", 2),
@@ -546,7 +557,7 @@ pub fn consumption_order() {
         let names = ["\"A\"", "\"B\"", "\"C\""];
         let mut items: Vec<String> = Vec::new();
         let mut t = 0;
-        for (i, v) in vals.iter().enumerate() {
+        for v in vals.iter() {
             match v {
                 Val::Num(_) => items.push(w.to_string()),
                 _ => {
@@ -556,15 +567,19 @@ pub fn consumption_order() {
             }
         }
         println!("REPLAY-JSONNET: std.format({:?}, [{}])", tpl, items.join(", "));
-        if nvals == need { println!("REPLAY-EXPECT: nocrash"); } else { println!("REPLAY-EXPECT: error"); }
+        if nvals == need {
+            println!("REPLAY-EXPECT: nocrash");
+        } else {
+            println!("REPLAY-EXPECT: error");
+        }
     }
     let r = format_arr(tpl, vals);
     if nvals != need {
         assert!(r.is_err(), "C12.arity too few or too many values must be an error");
     } else {
-        let out = r.expect("C12.arity.ok exact number of values must format");
+        assert!(r.is_ok(), "C12.arity.ok the exact number of values must format");
+        let out = r.unwrap();
         let ob = out.as_bytes();
-        // expected text
         let mut want = Buf::new();
         let pad = |b: &mut Buf, k: usize| {
             let mut i = 0;
@@ -578,7 +593,7 @@ pub fn consumption_order() {
                 want.push(b'A');
                 want.push(b'B');
             }
-            1 => {
+            1 | 5 => {
                 pad(&mut want, (w as usize).saturating_sub(1));
                 want.push(b'A');
             }
@@ -586,12 +601,7 @@ pub fn consumption_order() {
                 want.push(b'%');
                 want.push(b'A');
             }
-            3 => want.push(b'A'),
-            4 => want.push(b'A'),
-            5 => {
-                pad(&mut want, (w as usize).saturating_sub(1));
-                want.push(b'A');
-            }
+            3 | 4 => want.push(b'A'),
             _ => {
                 want.push(b'a');
                 want.push(b'A');
@@ -603,15 +613,27 @@ pub fn consumption_order() {
         let mut i = 0;
         while i < 8 {
             if i < ob.len() && i < want.n {
-                assert!(ob[i] == want.b[i], "C12.order.text values consumed left to right");
+                assert!(ob[i] == want.b[i], "C12.order.text values are consumed left to right");
             }
             i += 1;
         }
     }
-    kani::cover!(which == 5 && nvals == 3, "two star arguments reached");
     kani::cover!(nvals < need, "too few values reached");
-    kani::cover!(nvals > need, "too many values reached");
+    kani::cover!(nvals == need, "exact number of values reached");
+    kani::cover!(nvals > need || need == 3, "too many values (or the three-value template) reached");
 }
+//@harness name=consume_s_s tier=thorough optional=1 timeout=3600 unwind=12 desc="'%s%s' with 0..3 values: left-to-right consumption, arity errors" bounds="values: opaque tokens"
+consumption!(consume_s_s, 0);
+//@harness name=consume_star_s tier=thorough optional=1 timeout=3600 unwind=12 desc="'%*s': the star consumes the first value as width" bounds="width value 0..=3"
+consumption!(consume_star_s, 1);
+//@harness name=consume_pct_s tier=thorough optional=1 timeout=3600 unwind=12 desc="'%%%s': %% consumes no value" bounds="values: opaque tokens"
+consumption!(consume_pct_s, 2);
+//@harness name=consume_dotstar_s tier=thorough optional=1 timeout=3600 unwind=12 desc="'%.*s': the star precision consumes one value" bounds="precision value 0..=3"
+consumption!(consume_dotstar_s, 4);
+//@harness name=consume_star_dotstar_s tier=thorough optional=1 timeout=3600 unwind=12 desc="'%*.*s': width, precision, value in that order" bounds="width/precision value 0..=3"
+consumption!(consume_star_dotstar_s, 5);
+//@harness name=consume_lit tier=thorough optional=1 timeout=3600 unwind=12 desc="'a%sb%%': literal text copied around the value" bounds="values: opaque tokens"
+consumption!(consume_lit, 6);
 
 // ================================================================================================
 // (d) float conversions: panic-freedom of the u16 / cast arithmetic
@@ -624,70 +646,90 @@ fn float_conv(which: u8) -> (ConvTypeV, bool, u8) {
         _ => (ConvTypeV::Scientific, true, b'E'),
     }
 }
-//@harness tier=quick timeout=900 desc="%f %e %g %E with precision 0 or 1... precision 0: no panic for any finite value (with precision 0 the remainder in render_float is exact in CBMC's model)" bounds="precision = 0, width <= 12, value: every finite double"
-#[kani::proof]
-#[kani::unwind(70)]
-pub fn float_prec0_no_panic() {
-    let flags = any_flags();
-    let width: u16 = kani::any();
-    kani::assume(width <= 12);
-    let which: u8 = kani::any();
-    kani::assume(which < 4);
-    let (ct, caps, c) = float_conv(which);
-    let v: f64 = kani::any();
-    kani::assume(v.is_finite());
-    let code = Code { mkey: "", cflags: flags, width: Width::Fixed(width), precision: Some(Width::Fixed(0)), convtype: ct, caps };
-    #[cfg(verif_playback)]
-    {
-        println!("REPLAY-INPUT: conv={} width={} prec=0 value={:e}", c as char, width, v);
-        println!("REPLAY-JSONNET: std.length(std.format({:?}, [{:e}]))", fmt_string(&code.cflags, Some(width), Some(0), c as char), v);
-        println!("REPLAY-EXPECT: nocrash");
-    }
-    let mut out = String::new();
-    let r = format_code(&mut out, &Val::Num(NumValue::new(v).unwrap()), &code, width, Some(0));
-    assert!(r.is_ok(), "C12.float.total float conversion of a number must succeed");
-    kani::cover!(which == 2 && v.abs() < 1e-5 && v != 0.0, "%g of a tiny value reached");
-    kani::cover!(which == 2 && v.abs() >= 1.0 && v.abs() < 10.0, "%g of a one-digit value reached");
-    kani::cover!(v.abs() > 1e300, "huge value reached");
+macro_rules! float_total {
+    ($name:ident, $which:literal, $prec0:literal) => {
+        #[kani::proof]
+        #[kani::unwind(32)]
+        pub fn $name() {
+            let flags = any_flags();
+            let width: u16 = kani::any();
+            kani::assume(width <= 12);
+            let prec: u16 = if $prec0 { 0 } else { kani::any() };
+            kani::assume(prec <= 12 || (prec >= 300 && prec <= 320) || prec >= 65530);
+            let (ct, caps, c) = float_conv($which);
+            let v: f64 = kani::any();
+            kani::assume(v.is_finite());
+            let code = Code { mkey: "", cflags: flags, width: Width::Fixed(width), precision: Some(Width::Fixed(prec)), convtype: ct, caps };
+            #[cfg(verif_playback)]
+            {
+                println!("REPLAY-INPUT: conv={} width={} prec={} value={:e}", c as char, width, prec, v);
+                println!("REPLAY-JSONNET: std.length(std.format({:?}, [{:e}]))", fmt_string(&code.cflags, Some(width), Some(prec), c as char), v);
+                println!("REPLAY-EXPECT: nocrash");
+                println!("REPLAY-ROLE: {}", if prec >= 65530 { "C12.float.precision_near_u16_max" } else if prec >= 300 { "C12.float.precision_beyond_double_range" } else if prec == 0 && c == b'g' { "C12.float.g_precision_zero" } else if v.abs() > 1e15 { "C12.float.huge_value" } else { "C12.float.ordinary" });
+            }
+            let mut out = FString::new();
+            let r = format_code(&mut out, &Val::Num(NumValue::new(v).unwrap()), &code, width, Some(prec));
+            assert!(r.is_ok(), "C12.float.total float conversion of a number must succeed");
+            kani::cover!(v.abs() < 1e-5 && v != 0.0, "tiny value reached");
+            kani::cover!(v.abs() > 1e300, "huge value reached");
+            kani::cover!($prec0 || prec >= 65530, "extreme precision reached");
+        }
+    };
 }
-
-//@harness tier=quick timeout=900 spurious="iv >= 0.0|render_integer receives sign" desc="%f %e %g with any precision: no panic in the u16 / cast arithmetic. CBMC over-approximates the f64 remainder used for the fractional digits, so a failure of render_integer's sign assertion counts only when it reproduces natively" bounds="precision: every u16 in 0..=20 or >= 300, width <= 12, value: every finite double"
+//@harness name=float_f_prec0 tier=quick timeout=900 unwind=32 desc="%.0f never panics (the remainder is exact in CBMC's model when the denominator is 1)" bounds="value: every finite double; width <= 12; every flag subset"
+float_total!(float_f_prec0, 0, true);
+//@harness name=float_e_prec0 tier=thorough optional=1 timeout=3600 unwind=32 spurious="." desc="%.0e never panics (CBMC over-approximates powf used for the mantissa: every failure must reproduce natively to count)" bounds="value: every finite double; width <= 12; every flag subset"
+float_total!(float_e_prec0, 1, true);
+//@harness name=float_g_prec0 tier=quick timeout=900 unwind=32 desc="%.0g never panics" bounds="value: every finite double; width <= 12; every flag subset"
+float_total!(float_g_prec0, 2, true);
+//@harness tier=quick timeout=600 desc="%f with a precision beyond the double exponent range (10^precision is infinite): must not panic" bounds="precision 309..=320 and 65530..=65535, value: every finite double, width <= 12"
 #[kani::proof]
-#[kani::unwind(70)]
-pub fn float_anyprec_no_panic() {
+#[kani::unwind(32)]
+pub fn float_f_bigprec() {
     let flags = any_flags();
     let width: u16 = kani::any();
     kani::assume(width <= 12);
     let prec: u16 = kani::any();
-    kani::assume(prec <= 20 || prec >= 300);
-    // zero padding loops push `precision` characters: keep the huge ones to the paths that fail early
-    let which: u8 = kani::any();
-    kani::assume(which < 3);
-    let (ct, caps, c) = float_conv(which);
+    kani::assume((prec >= 309 && prec <= 320) || prec >= 65530);
     let v: f64 = kani::any();
     kani::assume(v.is_finite());
-    let code = Code { mkey: "", cflags: flags, width: Width::Fixed(width), precision: Some(Width::Fixed(prec)), convtype: ct, caps };
+    let code = Code { mkey: "", cflags: flags, width: Width::Fixed(width), precision: Some(Width::Fixed(prec)), convtype: ConvTypeV::Float, caps: false };
     #[cfg(verif_playback)]
     {
-        println!("REPLAY-INPUT: conv={} width={} prec={} value={:e}", c as char, width, prec, v);
-        println!("REPLAY-JSONNET: std.length(std.format({:?}, [{:e}]))", fmt_string(&code.cflags, Some(width), Some(prec), c as char), v);
+        println!("REPLAY-INPUT: conv=f width={} prec={} value={:e}", width, prec, v);
+        println!("REPLAY-JSONNET: std.length(std.format({:?}, [{:e}]))", fmt_string(&code.cflags, Some(width), Some(prec), 'f'), v);
         println!("REPLAY-EXPECT: nocrash");
+        println!("REPLAY-ROLE: C12.float.scale_leaves_double_range");
     }
-    let mut out = String::new();
+    let mut out = FString::new();
     let r = format_code(&mut out, &Val::Num(NumValue::new(v).unwrap()), &code, width, Some(prec));
     assert!(r.is_ok(), "C12.float.total float conversion of a number must succeed");
     kani::cover!(prec == 65535, "precision 65535 reached");
-    kani::cover!(prec >= 300 && prec < 400, "precision beyond the double exponent range reached");
-    kani::cover!(prec == 6 && which == 1, "ordinary %e reached");
+    kani::cover!(prec == 309, "precision 309 reached");
 }
 
-//@harness tier=quick timeout=600 desc="%c: a number is converted through its code point (error for non-scalar values), a one-character string is copied, anything else is an error" bounds="number: every finite double; string: every UTF-8 string <= 3 bytes"
+//@harness name=float_f_anyprec tier=thorough optional=1 timeout=3600 unwind=32 spurious="iv >= 0.0|render_integer receives sign|capacity exceeded" desc="%f with other precisions: panic freedom of the u16/cast arithmetic; CBMC's f64 remainder is non-deterministic, so a failure of render_integer's sign assertion (or of the accumulator capacity, fed by garbage digits) counts only when it reproduces natively" bounds="precision 0..=12, 300..=320, 65530..=65535; value: every finite double"
+float_total!(float_f_anyprec, 0, false);
+//@harness name=float_e_anyprec tier=thorough optional=1 timeout=3600 unwind=32 spurious="iv >= 0.0|render_integer receives sign|capacity exceeded" desc="%e likewise" bounds="precision 0..=12, 300..=320, 65530..=65535; value: every finite double"
+float_total!(float_e_anyprec, 1, false);
+//@harness name=float_g_anyprec tier=thorough optional=1 timeout=3600 unwind=32 spurious="iv >= 0.0|render_integer receives sign|capacity exceeded" desc="%g likewise" bounds="precision 0..=12, 300..=320, 65530..=65535; value: every finite double"
+float_total!(float_g_anyprec, 2, false);
+
+//@harness tier=thorough optional=1 timeout=3600 desc="%c: a number is converted through its code point (error for non-scalar values), a one-character string is copied, anything else is an error" bounds="number: every finite double; string: every UTF-8 string <= 3 bytes"
 #[kani::proof]
 #[kani::unwind(8)]
-pub fn char_conv() {
+pub fn char_conv_num() {
+    char_conv(true);
+}
+//@harness tier=thorough optional=1 timeout=3600 desc="%c of a string: copied iff it has exactly one character" bounds="every UTF-8 string <= 3 bytes"
+#[kani::proof]
+#[kani::unwind(8)]
+pub fn char_conv_str() {
+    char_conv(false);
+}
+fn char_conv(use_num: bool) {
     let code = Code { mkey: "", cflags: CFlags::default(), width: Width::Fixed(0), precision: None, convtype: ConvTypeV::Char, caps: false };
-    let use_num: bool = kani::any();
-    let mut out = String::new();
+    let mut out = FString::new();
     if use_num {
         let v: f64 = kani::any();
         kani::assume(v.is_finite());
